@@ -2,6 +2,9 @@ package props
 
 import (
 	"context"
+	crand "crypto/rand"
+	"encoding/json"
+	"io"
 	"crypto/md5"
 	"crypto/sha1"
 	"crypto/sha256"
@@ -25,6 +28,7 @@ import (
 	"github.com/istio-ecosystem/authservice/zzverif/ev"
 	"github.com/istio-ecosystem/authservice/zzverif/par"
 	"github.com/istio-ecosystem/authservice/zzverif/schedx"
+	"github.com/istio-ecosystem/authservice/zzverif/vsched"
 )
 
 // C06: session ids, state and nonce are unpredictable — exhaustive search by a bounded attacker.
@@ -384,6 +388,16 @@ func c06Run(run *ev.Run) {
 		}
 		run.Class("one-generator-many-logins")
 	}
+	// process start-up: the first concurrent login redirects of fresh processes, every schedule twice
+	{
+		n := c06StartupExplore(run, 2)
+		if run.Tier == "thorough" {
+			n += c06StartupExplore(run, 3)
+		}
+		atomic.AddInt64(&cands, n)
+		run.Extra["fresh_process_executions"] = n
+		run.Class("startup-burst|fresh-processes")
+	}
 	// concurrent logins: all interleavings (at every lock operation of the repository's code, pre-emption bound 2/3) of
 	// two and three threads that each obtain a login redirect through Check must yield pairwise different identifiers
 	for _, nt := range []int{2, 3} {
@@ -453,6 +467,161 @@ func c06Run(run *ev.Run) {
 	run.Evals, run.States, run.Transitions, run.Traces = cands, int64(len(logins)), cands, int64(len(logins))
 }
 
+// entropyReader makes every read of crypto/rand a scheduling point (the first few per thread), so that the explorer
+// can stop one thread inside its first entropy read while another one draws.
+type entropyReader struct {
+	orig  io.Reader
+	count map[int]int
+}
+
+func (e *entropyReader) Read(b []byte) (int, error) {
+	if s := vsched.Active(); s != nil {
+		t := s.Running()
+		if e.count[t] < 3 {
+			e.count[t]++
+			s.Point("entropy", "crypto/rand")
+		}
+	}
+	return e.orig.Read(b)
+}
+
+// c06StartupScenario: the first two/three login redirects of a FRESH PROCESS, concurrently; the schedule is explored
+// with entropy reads as scheduling points. The observation is the list of issued identifiers: the parent runs every
+// schedule in two fresh processes and an identifier that comes out the same in both was not drawn from entropy.
+func c06StartupScenario(nt int) schedx.Scenario {
+	return schedx.Scenario{Name: fmt.Sprintf("start-up burst of %d login redirects", nt), Prop: "C06", FreshProcess: true, Bound: 1, SyncPoints: true,
+		PanicIsViolation: true, DeadlockIsViolation: true, OnceOnly: true,
+		Setup: func() *schedx.Instance {
+			er := &entropyReader{orig: crand.Reader, count: map[int]int{}}
+			crand.Reader = er
+			var cnt int64
+			cfg := &configv1.Config{Chains: []*configv1.FilterChain{{Name: "c", Filters: []*configv1.Filter{{Type: &configv1.Filter_Oidc{Oidc: c08OIDC()}}}}}}
+			f := server.NewExtAuthZFilter(cfg, c08Pool, nil, countingFactory{countingStore{n: &cnt}})
+			vals := make([][]string, nt)
+			bodies := make([]func(), nt)
+			for i := 0; i < nt; i++ {
+				i := i
+				bodies[i] = func() {
+					req := &envoy.CheckRequest{Attributes: &envoy.AttributeContext{Request: &envoy.AttributeContext_Request{
+						Http: &envoy.AttributeContext_HttpRequest{Id: "1", Method: "GET", Scheme: "https", Host: "app.test", Path: "/x", Headers: map[string]string{}}}}}
+					resp, err := f.Check(context.Background(), req)
+					if err != nil {
+						return
+					}
+					for _, h := range resp.GetDeniedResponse().GetHeaders() {
+						switch strings.ToLower(h.GetHeader().GetKey()) {
+						case "location":
+							if u, err := url.Parse(h.GetHeader().GetValue()); err == nil {
+								vals[i] = append(vals[i], "state="+u.Query().Get("state"), "nonce="+u.Query().Get("nonce"))
+							}
+						case "set-cookie":
+							v := h.GetHeader().GetValue()
+							if j := strings.Index(v, "="); j > 0 {
+								vals[i] = append(vals[i], "sid="+strings.SplitN(v[j+1:], ";", 2)[0])
+							}
+						}
+					}
+				}
+			}
+			return &schedx.Instance{Threads: bodies, Close: func() { crand.Reader = er.orig }, Finish: func(x *schedx.Exec) (string, []schedx.Violation) {
+				var all []string
+				for i, vs := range vals {
+					for _, v := range vs {
+						all = append(all, fmt.Sprintf("t%d:%s", i, v))
+					}
+				}
+				return strings.Join(all, " "), nil
+			}}
+		}}
+}
+
+// c06StartupExplore runs every schedule (pre-emption bound 1, pre-emptions within the first c06Window scheduling
+// points of the pre-empted thread: the subject is the start-up window) of the start-up burst in two fresh processes each.
+const c06Window = 24
+
+func c06StartupExplore(run *ev.Run, nt int) int64 {
+	sc := c06StartupScenario(nt)
+	var n int64
+	var mu sync.Mutex
+	seen := map[string]bool{}
+	// one returns the alternatives that branch off this execution
+	one := func(prefix []int) [][]int {
+		if run.Expired() || run.Violations() > 5 {
+			return nil
+		}
+		xa, oa, _, ea := schedx.RunOnce(sc, prefix)
+		_, ob, _, eb := schedx.RunOnce(sc, prefix)
+		atomic.AddInt64(&n, 2)
+		if ea != nil || eb != nil {
+			run.HarnessError(fmt.Sprintf("C06 start-up scenario: %v %v", ea, eb))
+			return nil
+		}
+		va, vb := strings.Fields(oa), strings.Fields(ob)
+		inB := map[string]bool{}
+		for _, v := range vb {
+			inB[v[strings.Index(v, ":")+1:]] = true
+		}
+		mu.Lock()
+		for _, v := range va {
+			id := v[strings.Index(v, ":")+1:]
+			if inB[id] && !seen[id] {
+				seen[id] = true
+				what := id[:strings.Index(id, "=")]
+				run.Violation("C06 predictable target="+what+" attack=same-identifier-in-two-fresh-processes",
+					fmt.Sprintf("two fresh processes running the same schedule of %d concurrent first login redirects issued the identical %s: it is a constant of the program, not drawn from entropy | schedule: %s",
+						nt, what, schedx.TraceString(xa.Sched)), schedx.Replay{Scenario: sc.Name, Choices: xa.Choices})
+			}
+		}
+		mu.Unlock()
+		var alts [][]int
+		pre := 0
+		perThread := map[int]int{}
+		for i, p := range xa.Sched.Trace {
+			perThread[p.Thread]++
+			if i >= len(prefix) && len(p.Enabled) > 1 {
+				cost := pre
+				if !p.Free {
+					cost++
+				}
+				if cost <= sc.Bound && (p.Free || perThread[p.Thread] <= c06Window) {
+					for alt := 1; alt < len(p.Enabled); alt++ {
+						np := make([]int, i+1)
+						copy(np, xa.Choices[:i])
+						np[i] = alt
+						alts = append(alts, np)
+					}
+				}
+			}
+			if p.Chosen != 0 && !p.Free {
+				pre++
+			}
+		}
+		return alts
+	}
+	level := [][]int{nil}
+	for len(level) > 0 {
+		next := make([][][]int, len(level))
+		par.For(len(level), run.Expired, func(i int) { next[i] = one(level[i]) })
+		level = nil
+		for _, a := range next {
+			level = append(level, a...)
+		}
+	}
+	return n
+}
+
+func c06SchedChild(name, prefixJSON string) {
+	var prefix []int
+	_ = json.Unmarshal([]byte(prefixJSON), &prefix)
+	for _, nt := range []int{2, 3} {
+		if sc := c06StartupScenario(nt); sc.Name == name {
+			schedx.RunChild(sc, prefix)
+			return
+		}
+	}
+	fmt.Println("unknown scenario", name)
+}
+
 // c06ConcScenario: nt threads each send several cookie-less requests through ONE ExtAuthZFilter; every identifier
 // issued in the execution must be unique.
 func c06ConcScenario(nt, bound int) schedx.Scenario {
@@ -520,4 +689,4 @@ func c06ReplayFn(path string) int {
 	return replayVerdict("C06", run.Violations() > 0, "")
 }
 
-func init() { Registry["C06"] = Prop{Run: c06Run, Replay: c06ReplayFn} }
+func init() { Registry["C06"] = Prop{Run: c06Run, Replay: c06ReplayFn, SchedChild: c06SchedChild} }
